@@ -4,6 +4,13 @@ from ..frames.local import to_local
 from ..frames.frames import get_frame
 
 
+def _rebuild(cls, values):
+    """Used when unpickling a Cov instance, allocate the array as the constructor does"""
+    return np.ndarray.__new__(
+        cls, (6, 6), buffer=np.array(values, dtype=float), dtype=float
+    )
+
+
 class Cov(np.ndarray):
     """Covariance matrix"""
 
@@ -57,6 +64,14 @@ class Cov(np.ndarray):
                 txt += f" {self[i, j]: 0.2e} "
             txt += "\n"
         return txt
+
+    def __reduce__(self):
+        """For pickling"""
+        return _rebuild, (self.__class__, np.array(self)), self._data
+
+    def __setstate__(self, state):
+        """For pickling"""
+        self._data = state
 
     def copy(self, frame=None):
         """"""
